@@ -73,7 +73,9 @@ PROPS["C07"] = dict(
                  "Kani: population best / archive kernels at enumerated sizes."),
     verus=[dict(name="best_individual", template="contracts/C07/best_individual.vrs",
                 expect=["BestIndividual<P>::update", "BestIndividual<P>::new"]),
-           dict(name="update_exec", template="contracts/C07/update_exec.vrs", expect=["<BestIndividualUpdate as Component<P>>::execute"])],
+           dict(name="update_exec", template="contracts/C07/update_exec.vrs", expect=["<BestIndividualUpdate as Component<P>>::execute"]),
+           dict(name="archive_into_population", template="contracts/C07/archive_into_population.vrs",
+                expect=["impl<P> Component<P> for ElitistArchiveIntoPopulation::execute"])],
     kani=[dict(files=["contracts/C07/c07.rs"], inject=[dict(file="contracts/C07/c07_archive.rs", into="src/components/archive.rs")])],
     min_obligations={"quick": 40, "thorough": 41},
     uncovered=["whole-run clause 'reported best = minimum returned' (placement of updates in templates)"],
@@ -156,7 +158,7 @@ PROPS["C14"] = dict(
     explanation=("Hoare triples on the real BoundaryConstraint::constrain implementations, one coordinate, domain and coordinate "
                  "symbolic f64 within the stated regime; termination by unwinding assertion."),
     verus=[], kani=[dict(files=["contracts/C14/c14.rs"])],
-    min_obligations={"quick": 12, "thorough": 15},
+    min_obligations={"quick": 12, "thorough": 16},
     uncovered=["initialisation operators (rejection-sampling loops over a symbolic RNG are unbounded)", "resampling distribution",
                "boundary_constraint driver over populations"],
 )
@@ -249,7 +251,8 @@ PROPS["C06"] = dict(
     level="other",
     explanation=("Kani Hoare triple on the real Sequential::evaluate with a call-logging objective function at population sizes 0, 1, 3: "
                  "every individual evaluated exactly once, in order, solutions untouched, objective = f(solution)."),
-    verus=[], kani=[dict(files=["contracts/C06/c06.rs"])],
+    verus=[], kani=[dict(files=["contracts/C06/c06.rs"], map_shim=True,
+                         map_shim_files=["src/state/registry/mod.rs", "src/state/registry/entry.rs", "src/state/registry/multi.rs"])],
     min_obligations={"quick": 3, "thorough": 3},
     uncovered=["PopulationEvaluator::execute incl. the evaluation COUNTER (closure capturing &mut population: Verus rejects; State + eyre: Kani cannot)",
                "require (missing evaluator is an error before anything executes)", "Parallel evaluator (threads)",
